@@ -155,6 +155,20 @@ struct Universe final : IUniverse {
         return it != subjects.end() && it->second.alive ? it->second.p : nullptr;
     }
 
+    // ------------------------------------------------------------ the caller's argument objects of the outermost notify
+    void *callerArgs = nullptr;      // std::tuple<std::decay_t<Args>...>* while a top-level notify is running
+    template<typename A, typename V> static void clobberOne(V &v) {
+        if constexpr (!std::is_reference_v<A>) {
+            if constexpr (std::is_same_v<V, std::string>) v = "CLOBBERED-BY-A-CALLBACK-OF-THE-SAME-ROUND"; else v = 987654;
+        }
+    }
+    template<size_t... I> void clobberCallerArgs(std::index_sequence<I...>) {
+        if (callerArgs == nullptr) return;
+        auto &tup = *static_cast<std::tuple<std::decay_t<Args>...> *>(callerArgs);
+        (clobberOne<std::tuple_element_t<I, std::tuple<Args...>>>(std::get<I>(tup)), ...);
+        (void) tup;
+    }
+
     // ------------------------------------------------------------ the callback
     void callback(TokenInfo *info, const SelfView *selfView, const Args &...args) {
         if (info->dead) rec().fail("CALL_AFTER_FREE");
@@ -164,6 +178,9 @@ struct Universe final : IUniverse {
             return;
         }
         rec().log.push_back(std::to_string(info->id) + "(" + argStr(args...) + ")[");
+        // the caller's argument objects change while the round is in progress: by-value parameters of notify() were
+        // copied when notify() was called, so every observer of the round still has to see the values that were passed
+        clobberCallerArgs(std::index_sequence_for<Args...>{});
         ++info->running;
         Subj &subject = *subjects.at(info->subj).p;
         Obs *self = static_cast<Obs *>(info->observer);
@@ -348,8 +365,10 @@ struct Universe final : IUniverse {
             Subj *s = liveSubj(num(1));
             if (!s) return "!PRECOND";
             fuelLeft = (int) num(2);
-            auto args = parseArgs(t.at(3));
+            std::tuple<std::decay_t<Args>...> args = parseArgs(t.at(3));
+            callerArgs = &args;
             std::apply([&](auto &...xs) { s->notify(xs...); }, args);
+            callerArgs = nullptr;
             return finish("", true);
         }
         if (op == "hmove") {
